@@ -68,6 +68,9 @@ def _run(prop, tier, seed, replay, work, t0):
             transitions += r['generated']
             design_info.append({'module': module, 'cfg': cfg, 'distinct_states': r['distinct'],
                                 'states_generated': r['generated'], 'wall_s': round(r['wall'], 1)})
+        if prop in ('C01', 'C02', 'C07', 'C08') and tier == 'thorough':
+            # unbounded TLAPS proofs of the Galois / closure / order-duality core of the oracle
+            design_info.append(common.run_tlapm('GaloisProofs', work))
 
     def one(shard):
         out = os.path.join(work, f'shard{shard}.ndjson')
